@@ -274,7 +274,17 @@ std::string run_case(const std::string& c, size_t n, uint64_t dseed, int dist) {
     bool a2 = manifold::all_of(Par, in.begin(), in.end(), [&](int x) { return x != (n ? in[n - 1] : 0) || false; });
     bool b2 = std::all_of(in.begin(), in.end(), [&](int x) { return x != (n ? in[n - 1] : 0) || false; });
     if (!a) return "all_true";
-    return a2 == b2 ? "" : "all_false";
+    if (a2 != b2) return "all_false";
+    // exactly one element fails the predicate, at a seeded position (a partial result of an early
+    // sub-range must survive whatever later sub-ranges the same body is handed)
+    if (n > 0) {
+      for (int rep = 0; rep < 3; rep++) {
+        const size_t pos = rep == 0 ? 0 : (rep == 1 ? n / 3 : (size_t)r.below((uint32_t)n));
+        bool a3 = manifold::all_of(Par, countAt(0_uz), countAt(n), [pos](size_t i) { return i != pos; });
+        if (a3) return "all_of_missed_false_at_" + std::string(rep == 0 ? "front" : rep == 1 ? "third" : "random");
+      }
+    }
+    return "";
   }
   if (c == "gather" || c == "scatter") {
     std::vector<int> map(n);
